@@ -1,4 +1,4 @@
-"""P part shared by C02 / C04 / C01 / C07: size / offset / count bookkeeping of writer.write_column, make_row_group, iter_dataframe
+"""P part shared by C02 / C04 / C01 / C07 / C11 / C05: size / offset / count bookkeeping of writer.write_column, make_row_group, iter_dataframe
 (contracts/c02_bookkeeping.py).  ctx.prop selects the obligations that carry the property; the loop-invariant obligations the
 selected postconditions rest on are included with them."""
 import re
@@ -6,18 +6,22 @@ import re
 from contracts import c02_bookkeeping
 from vlib.common import PROVED, REFUTED, UNKNOWN
 
-_NULLS = re.compile(r"null|NULLS|row_offsets\[t\]|page_tiling|iloc_slice|rows_are_the_tile|out_of_reach")
-_TILING = re.compile(r"^iter_dataframe|page_tiling|num_values|num_rows|row_offsets\[t\]|exactly_one_data_page_per_tile|rows_are_the_tile|iloc_slice|"
+_NULLS = re.compile(r"null|NULLS|row_offsets\[t\]|page_tiling|iloc_slice|rows_are_the_tile|statistics\.|out_of_reach")
+_TILING = re.compile(r"^iter_dataframe|definition_block_form_matches_page_version|page_tiling|num_values|num_rows|row_offsets\[t\]|exactly_one_data_page_per_tile|rows_are_the_tile|iloc_slice|"
                      r"one_chunk_per_typed|columns_are_the_chunks|empty_frame_returns_None|nonempty_frame|schema_loop|out_of_reach")
 _C07 = re.compile(r"^make_row_group\.(chunk_written_from_the_column_named_by_its_schema_element|one_chunk_per_typed_schema_element_in_schema_order|"
                   r"schema_loop|schema_index_in_range|out_of_reach)")
+_C11 = re.compile(r"^write_column\[v[12]\]\.(definition_block_form_matches_page_version|out_of_reach)$")
+_C05 = re.compile(r"^write_column\[v[12]\]\.(statistics\.(max|min)_is_plain_encoding_of_column_(max|min)|out_of_reach)$")
 SELECT = {
+    "C11": lambda n: _C11.search(n) is not None,      # call site of make_definitions: block form follows the page version
+    "C05": lambda n: _C05.search(n) is not None,      # the bounds pruning relies on are the column's max / min, unprocessed
     "C07": lambda n: _C07.search(n) is not None,      # an appended frame's columns land under the schema elements that name them
     "C02": lambda n: not n.startswith("iter_dataframe"),
     "C04": lambda n: n.startswith("write_column") and _NULLS.search(n) is not None,
     "C01": lambda n: _TILING.search(n) is not None,
 }
-PARTS = {"C07": ("make_row_group",), "C02": ("write_column", "make_row_group"), "C04": ("write_column",), "C01": ("write_column", "make_row_group", "iter_dataframe")}
+PARTS = {"C11": ("write_column",), "C05": ("write_column",), "C07": ("make_row_group",), "C02": ("write_column", "make_row_group"), "C04": ("write_column",), "C01": ("write_column", "make_row_group", "iter_dataframe")}
 # known findings: (id, regex over the obligation names it covers).  None is open: the three findings of this contract
 # (fixed-C02-codec-dict-without-type, fixed-C02-codec-empty-dict, fixed-C02-encoding-stats-page-type-v2) are repaired in /repo and
 # `fixed` records suppress nothing - a refutation of those obligations is a VIOLATION again.
